@@ -108,7 +108,10 @@ fn alphabet(thorough: bool) -> Vec<Event> {
     let mut evs = vec![];
     for uri in 0..2 {
         for t in 0..TEXTS.len() {
-            evs.push(Event { kind: Kind::Open, uri, t1: t, t2: 0 });
+            // W and T (S with white space at an end) matter as a change from or to S; opening them says nothing S does not
+            if thorough || !matches!(kind_of(t), "W" | "T") {
+                evs.push(Event { kind: Kind::Open, uri, t1: t, t2: 0 });
+            }
             evs.push(Event { kind: Kind::Change1, uri, t1: t, t2: 0 });
         }
     }
